@@ -75,17 +75,23 @@ type FuncContract struct {
 // AssertAt is an inline assertion: proved just before the first instruction of the source line
 // containing the fingerprint text (names resolve to the locals visible there).
 type AssertAt struct {
-	At string
-	C  *Clause
+	At  string
+	Nth int // 1-based: the Nth distinct source line containing the text (0 = first)
+	C   *Clause
 }
 
 // GhostSet is a ghost assignment performed when the function returns: g(arg) := value
 // (value may use old()). Callers see it as a postcondition.
 type GhostSet struct {
+	At    string // "" = at function return; otherwise just before the anchored source line
+	Nth   int
 	Ghost string
 	Arg   *Expr
 	Val   *Expr
 	Text  string
+	// havoc statement (Ghost == ""): forget these heap key prefixes at the anchor (the effect of
+	// a callback the callee's contract cannot name)
+	HavocKeys []string
 }
 
 type PredDef struct {
@@ -124,6 +130,18 @@ type Contracts struct {
 	NonNil    map[string]bool      // named types whose values are assumed non-nil (listed assumption)
 	GlobalInv map[string][]*Clause // package path -> invariants over init-only package variables
 	IndLemmas []*IndLemma
+	Guarded   map[string]string         // heap key of a field -> name of the mutex field (same struct) that guards it
+	Atomic    map[string]bool           // heap keys of fields that may only be accessed through sync/atomic
+	Private   map[string][]*PrivateDecl // package path -> types only this package's listed functions write
+}
+
+// PrivateDecl: the fields of Type (unexported, or only written inside the package) are written by
+// the listed functions only. Opaque callees (modifies world) are assumed not to reach those
+// writers, so their calls leave the fields alone; the writer list itself is an obligation.
+type PrivateDecl struct {
+	Pkg, Type, Prefix string
+	Writers           []string
+	Line              int
 }
 
 // IndLemma is a lemma over spec functions proved by induction on an integer variable:
@@ -142,12 +160,12 @@ func NewContracts() *Contracts {
 }
 
 func newContracts0() *Contracts {
-	return &Contracts{Funcs: map[string]*FuncContract{}, Preds: map[string]*PredDef{}, Ghosts: map[string]*GhostDef{}, SmtFuns: map[string]*SmtFun{}, NonNil: map[string]bool{}, GlobalInv: map[string][]*Clause{}}
+	return &Contracts{Funcs: map[string]*FuncContract{}, Preds: map[string]*PredDef{}, Ghosts: map[string]*GhostDef{}, SmtFuns: map[string]*SmtFun{}, NonNil: map[string]bool{}, GlobalInv: map[string][]*Clause{}, Guarded: map[string]string{}, Atomic: map[string]bool{}, Private: map[string][]*PrivateDecl{}}
 }
 
 var clauseKeywords = map[string]bool{"func": true, "extern": true, "functype": true, "iface": true, "params": true, "results": true,
-	"requires": true, "ensures": true, "assert": true, "ghostset": true, "modifies": true, "loop": true, "pure": true, "trusted": true, "noinline": true, "panics": true,
-	"pred": true, "ghost": true, "smt": true, "lemma": true, "assume": true, "end": true, "nonnil": true, "globalinv": true, "lemma_ind": true}
+	"requires": true, "ensures": true, "assert": true, "ghostset": true, "havoc": true, "modifies": true, "loop": true, "pure": true, "trusted": true, "noinline": true, "panics": true,
+	"pred": true, "ghost": true, "smt": true, "lemma": true, "assume": true, "end": true, "nonnil": true, "globalinv": true, "lemma_ind": true, "guarded": true, "atomicfield": true, "private": true}
 
 func firstWord(s string) string {
 	s = strings.TrimSpace(s)
@@ -286,10 +304,63 @@ func (cs *Contracts) LoadContractFile(path, pkgPath string) error {
 			} else {
 				cur.Ensures = append(cur.Ensures, k)
 			}
+		case "havoc":
+			// havoc at "<text>"[#n] : Type.field[, Type.field]
+			if cur == nil {
+				return fmt.Errorf("%s:%d: havoc outside func", path, c.no)
+			}
+			htext := strings.TrimSpace(c.text)
+			if !strings.HasPrefix(htext, "at \"") {
+				return fmt.Errorf("%s:%d: havoc needs an anchor", path, c.no)
+			}
+			hr := htext[4:]
+			hq := strings.Index(hr, "\"")
+			if hq < 0 {
+				return fmt.Errorf("%s:%d: bad havoc anchor", path, c.no)
+			}
+			hat, hn := hr[:hq], 0
+			hr = strings.TrimSpace(hr[hq+1:])
+			if strings.HasPrefix(hr, "#") {
+				j := 1
+				for j < len(hr) && hr[j] >= '0' && hr[j] <= '9' {
+					j++
+				}
+				hn, _ = strconv.Atoi(hr[1:j])
+				hr = strings.TrimSpace(hr[j:])
+			}
+			hr = strings.TrimSpace(strings.TrimPrefix(hr, ":"))
+			hg := &GhostSet{At: hat, Nth: hn, Text: c.text}
+			for _, f := range strings.Split(hr, ",") {
+				if f = strings.TrimSpace(f); f != "" {
+					hg.HavocKeys = append(hg.HavocKeys, strings.TrimPrefix(pkgPath, "rare/")+"."+f)
+				}
+			}
+			cur.GhostSets = append(cur.GhostSets, hg)
 		case "ghostset":
 			if cur == nil {
 				return fmt.Errorf("%s:%d: ghostset outside func", path, c.no)
 			}
+			gtext := strings.TrimSpace(c.text)
+			gat, gnth := "", 0
+			if strings.HasPrefix(gtext, "at \"") {
+				r := gtext[4:]
+				q := strings.Index(r, "\"")
+				if q < 0 {
+					return fmt.Errorf("%s:%d: bad ghostset anchor", path, c.no)
+				}
+				gat = r[:q]
+				r = strings.TrimSpace(r[q+1:])
+				if strings.HasPrefix(r, "#") {
+					j := 1
+					for j < len(r) && r[j] >= '0' && r[j] <= '9' {
+						j++
+					}
+					gnth, _ = strconv.Atoi(r[1:j])
+					r = strings.TrimSpace(r[j:])
+				}
+				gtext = strings.TrimSpace(strings.TrimPrefix(r, ":"))
+			}
+			c.text = gtext
 			i := strings.Index(c.text, ":=")
 			lp := strings.Index(c.text, "(")
 			if i < 0 || lp < 0 || lp > i {
@@ -305,7 +376,7 @@ func (cs *Contracts) LoadContractFile(path, pkgPath string) error {
 			if err != nil {
 				return fmt.Errorf("%s:%d: %v", path, c.no, err)
 			}
-			cur.GhostSets = append(cur.GhostSets, &GhostSet{Ghost: strings.TrimSpace(lhs[:lp]), Arg: argE, Val: valE, Text: c.text})
+			cur.GhostSets = append(cur.GhostSets, &GhostSet{At: gat, Nth: gnth, Ghost: strings.TrimSpace(lhs[:lp]), Arg: argE, Val: valE, Text: c.text})
 		case "assert":
 			// assert at "<source text>" : <expr>
 			if cur == nil {
@@ -317,14 +388,28 @@ func (cs *Contracts) LoadContractFile(path, pkgPath string) error {
 			}
 			t = t[4:]
 			q := strings.Index(t, "\" :")
+			if q2 := strings.Index(t, "\"#"); q2 >= 0 && (q < 0 || q2 < q) {
+				q = q2
+			}
 			if q < 0 {
 				return fmt.Errorf("%s:%d: assert needs: at \"<text>\" : <expr>", path, c.no)
 			}
-			k, err := mkClause(strings.TrimSpace(t[q+3:]), c.no)
+			rest := strings.TrimSpace(t[q+1:])
+			nth := 0
+			if strings.HasPrefix(rest, "#") {
+				j := 1
+				for j < len(rest) && rest[j] >= '0' && rest[j] <= '9' {
+					j++
+				}
+				nth, _ = strconv.Atoi(rest[1:j])
+				rest = strings.TrimSpace(rest[j:])
+			}
+			rest = strings.TrimSpace(strings.TrimPrefix(rest, ":"))
+			k, err := mkClause(rest, c.no)
 			if err != nil {
 				return err
 			}
-			cur.Asserts = append(cur.Asserts, &AssertAt{At: t[:q], C: k})
+			cur.Asserts = append(cur.Asserts, &AssertAt{At: t[:q], Nth: nth, C: k})
 		case "modifies":
 			if cur == nil {
 				return fmt.Errorf("%s:%d: modifies outside func", path, c.no)
@@ -454,6 +539,34 @@ func (cs *Contracts) LoadContractFile(path, pkgPath string) error {
 			// the lemma is usable as a hypothesis everywhere (its proof is an obligation of every
 			// property that loads this contract file)
 			cs.SmtRaw = append(cs.SmtRaw, fmt.Sprintf("(assert (forall %s (! (=> (>= %s %s) %s) :pattern %s)))", il.Vars, il.Var, il.From, il.Claim, il.Pattern))
+		case "guarded":
+			// guarded <Type>.<field>[, <field>...] by <mutexField>
+			f := strings.Fields(strings.ReplaceAll(c.text, ",", " "))
+			if len(f) < 3 || f[len(f)-2] != "by" {
+				return fmt.Errorf("%s:%d: guarded needs: Type.field[, field] by mutexField", path, c.no)
+			}
+			first := f[0]
+			dot := strings.LastIndex(first, ".")
+			if dot < 0 {
+				return fmt.Errorf("%s:%d: guarded needs Type.field", path, c.no)
+			}
+			tname := first[:dot]
+			prefix := strings.TrimPrefix(pkgPath, "rare/") + "." + tname
+			fields := append([]string{first[dot+1:]}, f[1:len(f)-2]...)
+			for _, fl := range fields {
+				cs.Guarded[prefix+"."+fl] = f[len(f)-1]
+			}
+		case "private":
+			// private <Type> writers f1, f2, ...
+			f := strings.Fields(strings.ReplaceAll(c.text, ",", " "))
+			if len(f) < 2 || f[1] != "writers" {
+				return fmt.Errorf("%s:%d: private needs: Type writers f1, f2, ...", path, c.no)
+			}
+			cs.Private[pkgPath] = append(cs.Private[pkgPath], &PrivateDecl{Pkg: pkgPath, Type: f[0], Prefix: strings.TrimPrefix(pkgPath, "rare/") + "." + f[0], Writers: f[2:], Line: c.no})
+		case "atomicfield":
+			for _, fl := range strings.Fields(strings.ReplaceAll(c.text, ",", " ")) {
+				cs.Atomic[strings.TrimPrefix(pkgPath, "rare/")+"."+fl] = true
+			}
 		case "globalinv":
 			k, err := mkClause(c.text, c.no)
 			if err != nil {
